@@ -7,6 +7,7 @@ import (
 	"math/big"
 	"os"
 	"os/exec"
+	"regexp"
 	"sort"
 	"strings"
 	"sync"
@@ -165,6 +166,7 @@ func (vc *VC) globalDecls() string {
 // a batch that is not refuted is re-run unbatched by the caller.
 // skipCovers drops the return-reachability covers (sampled on large splits).
 func (s *Script) renderInstance(sb *strings.Builder, instIdx int, inst []int, only map[int]bool, modelTerms []string, batch, skipCovers bool) (trivial []int) {
+	startLen := sb.Len()
 	sb.WriteString("(push 1)\n")
 	sb.WriteString(s.Preamble)
 	splitVal := map[string]int{}
@@ -216,7 +218,12 @@ func (s *Script) renderInstance(sb *strings.Builder, instIdx int, inst []int, on
 		} else {
 			fmt.Fprintf(sb, "(assert (not (and %s)))\n", strings.Join(pendGoals, " "))
 		}
-		sb.WriteString("(check-sat)\n")
+		if s.Tactic == "nlsat" {
+			// polynomial goals over reals: purify, eliminate defined terms, expand to sums of monomials, complete NRA procedure
+			sb.WriteString("(check-sat-using (then simplify purify-arith solve-eqs (! simplify :som true) qfnra-nlsat))\n")
+		} else {
+			sb.WriteString("(check-sat)\n")
+		}
 		if len(modelTerms) > 0 {
 			fmt.Fprintf(sb, "(get-value (%s))\n", strings.Join(modelTerms, " "))
 		}
@@ -281,7 +288,89 @@ func (s *Script) renderInstance(sb *strings.Builder, instIdx int, inst []int, on
 	}
 	flush()
 	sb.WriteString("(pop 1)\n")
+	if s.Tactic == "nlsat" {
+		scalar := scalarize(sb.String()[startLen:])
+		head := sb.String()[:startLen]
+		sb.Reset()
+		sb.WriteString(head)
+		sb.WriteString(scalar)
+	}
 	return trivial
+}
+
+var (
+	reDeclConst = regexp.MustCompile(`^\(declare-const (\S+) (.+)\)$`)
+	reSelConst  = regexp.MustCompile(`\(select ([^\s()]+) (\d+)\)`)
+	reFieldOf   = regexp.MustCompile(`\(([A-Za-z0-9_]+)\.([A-Za-z0-9_]+) ([^\s()]+)\)`)
+)
+
+// scalarize replaces ground projections of declared constants - (select a 2), (T.f x), nested - by fresh constants of
+// the projected sort.  This is an abstraction (every model of the original script yields a model of the rewritten one),
+// so `unsat` carries over; it lets solve-eqs eliminate the components of call results, which it cannot do through
+// select / accessor terms.  Used only for scripts discharged with the nonlinear real tactic.
+func scalarize(text string) string {
+	lines := strings.Split(text, "\n")
+	decl := map[string]string{}
+	for _, ln := range lines {
+		if m := reDeclConst.FindStringSubmatch(ln); m != nil {
+			decl[m[1]] = m[2]
+		}
+	}
+	type newc struct{ base, name, sort string }
+	var created []newc
+	body := strings.Join(lines, "\n")
+	for round := 0; round < 8; round++ {
+		changed := false
+		body = reSelConst.ReplaceAllStringFunc(body, func(m string) string {
+			g := reSelConst.FindStringSubmatch(m)
+			srt, ok := decl[g[1]]
+			if !ok || !strings.HasPrefix(srt, "(Array Int ") {
+				return m
+			}
+			elem := strings.TrimSuffix(strings.TrimPrefix(srt, "(Array Int "), ")")
+			nm := g[1] + "$" + g[2]
+			if _, seen := decl[nm]; !seen {
+				decl[nm] = elem
+				created = append(created, newc{g[1], nm, elem})
+			}
+			changed = true
+			return nm
+		})
+		body = reFieldOf.ReplaceAllStringFunc(body, func(m string) string {
+			g := reFieldOf.FindStringSubmatch(m)
+			if decl[g[3]] != g[1] {
+				return m
+			}
+			fs, ok := structFieldSMT[g[1]+"."+g[2]]
+			if !ok {
+				return m
+			}
+			nm := g[3] + "$" + g[2]
+			if _, seen := decl[nm]; !seen {
+				decl[nm] = fs
+				created = append(created, newc{g[3], nm, fs})
+			}
+			changed = true
+			return nm
+		})
+		if !changed {
+			break
+		}
+	}
+	if len(created) == 0 {
+		return text
+	}
+	out := strings.Split(body, "\n")
+	for _, c := range created {
+		want := "(declare-const " + c.base + " " + decl[c.base] + ")"
+		for i, ln := range out {
+			if ln == want {
+				out = append(out[:i+1], append([]string{"(declare-const " + c.name + " " + c.sort + ")"}, out[i+1:]...)...)
+				break
+			}
+		}
+	}
+	return strings.Join(out, "\n")
 }
 
 type Solver struct {
@@ -291,7 +380,7 @@ type Solver struct {
 
 func solverCmd(name string, timeoutMs int) Solver {
 	switch name {
-	case "z3-new":
+	case "z3-new", "z3-nlsat":
 		return Solver{name, []string{"z3-new", "-in", "-smt2", fmt.Sprintf("-t:%d", timeoutMs)}}
 	case "z3":
 		return Solver{name, []string{"z3", "-in", "-smt2", fmt.Sprintf("-t:%d", timeoutMs)}}
@@ -780,9 +869,15 @@ func (r *Runner) single(header string, res *ObResult, solver string, timeoutMs i
 		modelTerms = sc.modelTerms()
 	}
 	sc.renderInstance(&sb, 0, res.InstVals, map[int]bool{idx: true}, modelTerms, false, false)
+	text := sb.String()
+	if solver == "z3-nlsat" {
+		// polynomial goals over reals (ideal-real scripts): z3 5.1 with an explicit tactic - purify, eliminate the defined
+		// terms, expand to sums of monomials, then the complete nonlinear real procedure.  Only `unsat` is accepted.
+		text = strings.ReplaceAll(text, "(check-sat)\n", "(check-sat-using (then simplify purify-arith solve-eqs (! simplify :som true) qfnra-nlsat))\n")
+	}
 	sv := solverCmd(solver, timeoutMs)
 	start := time.Now()
-	raw, _, err := runSolver(sv, sb.String(), time.Duration(timeoutMs)*time.Millisecond+20*time.Second)
+	raw, _, err := runSolver(sv, text, time.Duration(timeoutMs)*time.Millisecond+20*time.Second)
 	r.account(sv.Name, time.Since(start), 1)
 	if len(raw) == 0 {
 		return rawResult{status: "unknown", detail: "no answer"}, err
@@ -808,6 +903,11 @@ func (s *Script) modelTerms() []string {
 }
 
 func (r *Runner) retry(header string, res *ObResult) {
+	if os.Getenv("GOVC_STATS") != "" {
+		defer func() {
+			fmt.Fprintf(os.Stderr, "retry: %s %v -> %s by %s\n", res.FullName(), res.InstVals, res.Status, res.Solver)
+		}()
+	}
 	if res.Status == "sat" && !res.Ob.ExpectSat {
 		// candidate counterexample from the primary solver: fetch the model
 		mr, _ := r.single(header, res, r.Primary, r.TimeoutMs, true)
@@ -817,8 +917,14 @@ func (r *Runner) retry(header string, res *ObResult) {
 		}
 	}
 	order := append([]string{r.Primary}, r.Fallback...)
+	if res.Script != nil && res.Script.Ideal && !res.Ob.ExpectSat {
+		order = append([]string{r.Primary, "z3-nlsat"}, r.Fallback...)
+	}
 	for _, solver := range order {
 		rr, _ := r.single(header, res, solver, r.TimeoutMs, false)
+		if solver == "z3-nlsat" && rr.status != "unsat" {
+			continue
+		}
 		cand := &ObResult{Ob: res.Ob, Status: rr.status}
 		if cand.OK() {
 			res.Status, res.Solver, res.Detail = rr.status, solver, rr.detail
